@@ -83,13 +83,16 @@ class Env(object):
             return np.float64(r.normal() * 1.5 + 0.1)
         if cls == 'npint':
             return np.int64(r.integers(2, 4))
+        if cls == 'npint8':
+            # fixed-width integers whose products do not fit their own type (merged scalar factors)
+            return [np.int8, np.uint8, np.int16][int(r.integers(0, 3))](r.integers(90, 120))
         if cls == 'cplx':
             return complex(r.normal(), r.normal() + 0.3)
         v = float(r.normal() * 1.5)
         return v if abs(v) > 0.1 else 0.5
 
     def scalar_classes(self):
-        return ['gen', 'one', 'mone', 'int', 'npfloat', 'npint'] + (['cplx'] if self.cplx else [])
+        return ['gen', 'one', 'mone', 'int', 'npfloat', 'npint', 'npint8'] + (['cplx'] if self.cplx else [])
 
     def leaves(self):
         r, cplx, sp, sp2 = self.rng, self.cplx, self.sp, self.sp2
